@@ -111,7 +111,7 @@ def make_items(tier, seed):
         items.append({"ob": "remove_identities", "first": pre, "len": L})
     # gates that are not their own inverse (S, T, P, CP) and non-classical self-inverse ones (H, Z, CZ),
     # the same applied-gate object repeated: judged on exact amplitudes
-    for pre in range(10):
+    for pre in range(14):
         items.append({"ob": "remove_identities", "pool": "phase", "first": pre, "len": 4 if tier == "thorough" else 3})
     nqf, lf = (5, 4) if tier == "thorough" else (4, 3)
     for l in range(1, lf + 1):
@@ -394,9 +394,8 @@ def _check_item(spec):
         if phase:
             import math
 
-            nq = 2
-            xs = xs[:2]
-            applied = [(gates.S(), [0], None), (gates.T(), [1], None), (gates.P(), [0], math.pi / 4), (gates.CP(), [0, 1], math.pi / 2), (gates.H(), [0], None), (gates.Z(), [1], None), (gates.CZ(), [0, 1], None), (gates.Barrier(), [], None), (gates.X(), [0], None), (gates.CX(), [0, 1], None)]
+            applied = [(gates.S(), [0], None), (gates.T(), [1], None), (gates.P(), [0], math.pi / 4), (gates.CP(), [0, 1], math.pi / 2), (gates.H(), [0], None), (gates.Z(), [1], None), (gates.CZ(), [0, 1], None), (gates.Barrier(), [], None), (gates.X(), [0], None), (gates.CX(), [0, 1], None),
+                       (gates.CX(), [0, 2], None), (gates.CZ(), [1, 2], None), (gates.CCX(), [0, 1, 2], None), (gates.CP(), [1, 2], math.pi / 4)]
             pool = [(g, w) for g, w, _ in applied]
         n = 0
         bad = []
